@@ -66,7 +66,7 @@ def lean_build(targets):
     """lake build of the given targets (modules / exe names). Returns (ok, log)."""
     # one lock per property (builds of different properties touch disjoint files and may overlap)
     m = re.search(r'C(\d\d)', ' '.join(targets), re.I)
-    with Lock('lake_' + (m.group(1) if m else 'all')):
+    with Lock('lake_' + ('C' + m.group(1) if m else 'all')):
         r = sh(['lake', 'build'] + targets, cwd=LEAN)
     return r.returncode == 0, r.stdout
 
